@@ -344,7 +344,7 @@ Lemma srun_sl_others t s : forall sp, (forall y, In y s -> fst y <> t) -> sl (sr
 Proof.
   induction s as [|[u a] s IH]; intros sp H; simpl; auto.
   rewrite IH by (intros y Hy; apply H; right; exact Hy).
-  apply sstep_sl_other. intros ->. apply (H (t, a)); [left; reflexivity | reflexivity].
+  apply sstep_sl_other. intros Heq. apply (H (u, a)); [left; reflexivity | simpl; congruence].
 Qed.
 
 Lemma others_not t s : forall y, In y (others t s) -> fst y <> t.
@@ -409,10 +409,10 @@ Lemma global_spec s : forall sp dep, (forall t, length (sl sp t) = dep t) ->
   sg (srun sp s) = fold_left apply_act (global_acts dep s) (sg sp).
 Proof.
   induction s as [|[t a] s IH]; intros sp dep Hd; simpl; auto.
-  assert (Hnil : Nat.eqb (dep t) 0 = true -> sl sp t = []).
-  { intros H. apply Nat.eqb_eq in H. rewrite <- Hd in H. destruct (sl sp t); [reflexivity|discriminate]. }
-  assert (Hcons : Nat.eqb (dep t) 0 = false -> exists r rest, sl sp t = r :: rest).
-  { intros H. apply Nat.eqb_neq in H. rewrite <- Hd in H. destruct (sl sp t) as [|r rest]; [contradiction|eauto]. }
+  assert (Hnil : dep t = 0 -> sl sp t = []).
+  { intros H. rewrite <- Hd in H. destruct (sl sp t); [reflexivity|discriminate]. }
+  assert (Hcons : dep t <> 0 -> exists r rest, sl sp t = r :: rest).
+  { intros H. rewrite <- Hd in H. destruct (sl sp t) as [|r rest]; [contradiction|eauto]. }
   destruct a as [ | | | op rs | op x | op | op x].
   - rewrite (IH _ (updN dep t (S (dep t)))); [reflexivity|].
     intros u. unfold sstep; simpl. destruct (Nat.eq_dec u t) as [->|Hne].
@@ -427,14 +427,14 @@ Proof.
     + rewrite !updN_same. rewrite <- Hd. destruct (sl sp t); reflexivity.
     + rewrite !updN_other by exact Hne. apply Hd.
   - destruct (Nat.eqb (dep t) 0) eqn:E.
-    + rewrite (IH _ dep); unfold sstep; simpl; rewrite (Hnil E); simpl; auto.
-    + destruct (Hcons E) as (r & rest & Hs). rewrite (IH _ dep); unfold sstep; simpl; rewrite Hs; simpl; auto.
+    + apply Nat.eqb_eq in E. rewrite (IH _ dep); unfold sstep; simpl; rewrite (Hnil E); simpl; auto.
+    + apply Nat.eqb_neq in E. destruct (Hcons E) as (r & rest & Hs). rewrite (IH _ dep); unfold sstep; simpl; rewrite Hs; simpl; auto.
       intros u. destruct (Nat.eq_dec u t) as [->|Hne].
       * rewrite updN_same. simpl. rewrite <- Hd, Hs. reflexivity.
       * rewrite updN_other by exact Hne. apply Hd.
   - destruct (Nat.eqb (dep t) 0) eqn:E.
-    + rewrite (IH _ dep); unfold sstep; simpl; rewrite (Hnil E); simpl; auto.
-    + destruct (Hcons E) as (r & rest & Hs). rewrite (IH _ dep); unfold sstep; simpl; rewrite Hs; simpl; auto.
+    + apply Nat.eqb_eq in E. rewrite (IH _ dep); unfold sstep; simpl; rewrite (Hnil E); simpl; auto.
+    + apply Nat.eqb_neq in E. destruct (Hcons E) as (r & rest & Hs). rewrite (IH _ dep); unfold sstep; simpl; rewrite Hs; simpl; auto.
       intros u. destruct (Nat.eq_dec u t) as [->|Hne].
       * rewrite updN_same. simpl. rewrite <- Hd, Hs. reflexivity.
       * rewrite updN_other by exact Hne. apply Hd.
@@ -551,18 +551,20 @@ Proof.
   replace (s1 ++ (t, AEnter) :: s2 ++ [(t, x)]) with (((s1 ++ [(t, AEnter)]) ++ s2) ++ [(t, x)])
     by (rewrite <- !app_assoc; reflexivity).
   rewrite !srun_app. set (sp1 := srun (sinit d0 f0) s1).
-  assert (HQ0 : Q t (srun sp1 [(t, AEnter)]) sp1 [stop sp1 t]).
+  change (srun sp1 [(t, AEnter)]) with (sstep sp1 (t, AEnter)).
+  assert (HQ0 : Q t (sstep sp1 (t, AEnter)) sp1 [stop sp1 t]).
   { split; [reflexivity|split].
-    - intros v Hv. simpl. apply sstep_sl_other. exact Hv.
-    - simpl. unfold sstep; simpl. rewrite updN_same. reflexivity. }
+    - intros v Hv. apply sstep_sl_other. exact Hv.
+    - unfold sstep; simpl. rewrite updN_same. reflexivity. }
   destruct (episode_spec t s2 _ _ _ 0 l HQ0 eq_refl Hown) as (e & Hg & Ho & Ht).
-  set (spA := srun (srun sp1 [(t, AEnter)]) s2) in *. set (spB := srun sp1 (others t s2)) in *.
-  assert (Hsl : forall v, sl (srun spA [(t, x)]) v = sl spB v).
-  { intros v. simpl. destruct (Nat.eq_dec v t) as [->|Hv].
+  set (spA := srun (sstep sp1 (t, AEnter)) s2) in *. set (spB := srun sp1 (others t s2)) in *.
+  change (srun spA [(t, x)]) with (sstep spA (t, x)).
+  assert (Hsl : forall v, sl (sstep spA (t, x)) v = sl spB v).
+  { intros v. destruct (Nat.eq_dec v t) as [->|Hv].
     - unfold sstep; simpl. destruct Hx as [-> | ->]; simpl; rewrite updN_same, Ht; reflexivity.
     - rewrite sstep_sl_other by exact Hv. apply Ho. exact Hv. }
-  assert (Hsg : sg (srun spA [(t, x)]) = sg spB).
-  { simpl. rewrite sstep_sg_local; [exact Hg|]. left. destruct Hx as [-> | ->]; reflexivity. }
+  assert (Hsg : sg (sstep spA (t, x)) = sg spB).
+  { rewrite sstep_sg_local; [exact Hg|]. left. destruct Hx as [-> | ->]; reflexivity. }
   unfold stop. rewrite Hsl, Hsg. reflexivity.
 Qed.
 
